@@ -19,7 +19,7 @@ ASSUMPTIONS = [
     "documents that do not tokenize are C01's concern and are skipped (counted)",
     "a line 'exists' if 1 <= line <= len(text.split('\\n')); column within max(raw, tab-expanded) length + 1",
 ]
-LIMIT = {"Z2": 60000, "Z3": 30000, "Z4": 30000, "Z7": 30000}
+LIMIT = {"Z2": 60000, "Z3": 30000, "Z4": 30000, "Z7": 30000, "Z10": 20000, "Z11": 30000, "Z12": 30000}
 _PLUG = re.compile(r"Plugin id '([A-Za-z0-9]+)' had a critical failure during the '([a-z_]+)' action")
 _LINE = re.compile(r"^(?:stdin|in-memory):(\d+):(\d+): ([A-Z0-9]+): ")
 
@@ -30,7 +30,7 @@ def universe_hash():
 
 def plan(tier, seed, complete=False):
     items, zinfo = PL.plan_docs(
-        tier, seed, complete, quick={"Z1": 1600, "Z2": 1600, "Z3": 1100, "Z4": 1100, "Z7": 1200}, z1_all=False, limit=LIMIT, zones=("Z1", "Z2", "Z3", "Z4", "Z7"), force_b=True
+        tier, seed, complete, quick={"Z1": 1600, "Z2": 1600, "Z3": 1100, "Z4": 1100, "Z7": 1200, "Z10": 400, "Z11": 700, "Z12": 700}, z1_all=False, limit=LIMIT, zones=("Z1", "Z2", "Z3", "Z4", "Z7", "Z10", "Z11", "Z12"), force_b=True, check="C07"
     )
     return {
         "items": items, "zones": zinfo, "exhaustive": False,
@@ -73,7 +73,16 @@ def check_failures(doc, fails, v, R):
         prev = o
 
 
+# a document with many blocks of many kinds, scanned in the same invocation *before* the document under
+# test (every fourth case): rule objects live for the whole invocation, so whatever they forget to reset
+# in starting_new_file meets the next file
+HISTORY = ("# History\n\nfirst paragraph\n\nsecond paragraph\n\n- item\n- item\n\nthird\tparagraph\n\n[ref]: /u\n\n## Two\n\n"
+           "fourth `code` *e* [ref]\n\n```text\ncode\n```\n\n> quote\n\n1. one\n1. two\n\nfifth paragraph   \n\n***\n\nlast <b>html</b>\n")
+
+
 def run_items(items, job):
+    import os
+
     from vf import app, pm
 
     sb = app.Sandbox(job["work"])
@@ -134,6 +143,23 @@ def run_items(items, job):
             detail.setdefault("failures", {})[name] = fails[:40]
         if skip:
             continue
+        if idx % 4 == 0 and "all" in detail.get("failures", {}) and doc:
+            sb.clear_files()
+            pa = sb.write_bytes("a_history.md", HISTORY.encode("utf-8"))
+            pb = sb.write_bytes("b_doc.md", doc.encode("utf-8", "replace"))
+            if doc.encode("utf-8", "replace").decode("utf-8") == doc:
+                o = app.scan_files([pa, pb], only=allr)
+                R.count("scans")
+                R.count("after_history_compared")
+                m = _PLUG.search(o.errtext)
+                if m and not any(x.startswith("plugin-error:") for x in v):
+                    v.add(f"after-history:plugin-error:{m.group(1).upper()}:{m.group(2)}")
+                elif not o.watchdog and not m:
+                    got = sorted((f[1], f[2], f[3], f[6]) for f in o.failures if os.path.basename(f[0]) == "b_doc.md")
+                    want = sorted((f[0], f[1], f[2], f[3]) for f in detail["failures"]["all"]) if len(detail["failures"]["all"]) < 40 else None
+                    if want is not None and got != want:
+                        v.add("after-history:failures-differ:" + ",".join(sorted({x[2] for x in set(got) ^ set(want)})[:3]))
+                        detail["after_history"] = got[:20]
         R.count("documents_scanned")
         R.distinct.add(PL.mix(doc[:64], len(doc), ",".join(sorted(rules_seen))) & 0xFFFFFFFFFFFF)
         if v:
